@@ -48,7 +48,11 @@ def gen_cases(ctx, ncases, sig):
     return out, hist
 
 def fl(tokens):
-    return [float.fromhex(t) for t in tokens]
+    out = []
+    for t in tokens:
+        try: out.append(float.fromhex(t))
+        except ValueError: out.append(float(t))
+    return out
 
 def correspondence(ctx, ncases):
     d = ctx.bdir('corr'); os.makedirs(d, exist_ok=True)
@@ -86,6 +90,13 @@ def correspondence(ctx, ncases):
         ctx.broken.append(('correspondence:C40', 'runner failed rc=%s/%s lines=%d/%d of %d: %s' % (rc1, rc2, len(l1), len(l2), len(cases), (e1 + e2)[-300:])))
         return
     dis = []; nontrivial = set(); known = {}; bitwise = 0; nest = 0
+    SENT = 12345.678
+    # witness of the known 'result lost' defect: on the fast interface the caller's variable keeps the harness's sentinel
+    lost_seen = False
+    for (io, n, line, y0), a in zip(cases, l1):
+        if io in ('GS', 'JS') and line.split()[5] == '1' and not a.startswith('EXC'):
+            try: lost_seen = lost_seen or float.fromhex(a.split()[0]) == SENT
+            except ValueError: pass
     for (io, n, line, y0), a, b in zip(cases, l1, l2):
         why = None
         if a.startswith('EXC'):
@@ -115,7 +126,7 @@ def correspondence(ctx, ncases):
                             if x == y: bitwise += 1
                             tol = 1e-9 * abs(y) + 64 * EPS * mag / abs(h) + 1e-300
                             if not abs(x - y) <= tol:
-                                if io in ('GS', 'JS'): known.setdefault(K_LOST, (line, a, b))
+                                if io in ('GS', 'JS') and lost_seen and (x == SENT or line.split()[5] == '0'): known.setdefault(K_LOST, (line, a, b))
                                 elif why is None: why = 'estimate (param %d, fn %d) differs: cxx %r model %r tol %.3g' % (i, j, x, y, tol)
                     if any(v != 0 for v in eb): nontrivial.add(line)
         if why: dis.append((line, a, b, why))
@@ -166,3 +177,20 @@ def run(ctx):
     if ctx.broken or not quick:
         search(ctx, 200 if quick else 2000)
     ctx.finish()
+
+def replay(ctx, path):
+    """bin/check C40 --replay FILE : re-run a recorded case on the implementation and on the model"""
+    import json
+    r = json.load(open(path))
+    print('replay of %s: key=%s\n  %s' % (path, r.get('key'), r.get('what', r.get('no_longer_checks'))))
+    if r.get('case'):
+        d = ctx.bdir('corr')
+        if not (os.path.exists(os.path.join(d, 'diff')) and os.path.exists(os.path.join(d, 'drv'))): correspondence(ctx, 1)
+        for nm, exe in (('implementation', 'diff'), ('model', 'drv')):
+            rc, out, err = sh([os.path.join(d, exe)], input=r['case'] + '\n', timeout=60)
+            print('  %s: %s' % (nm, out.strip()))
+    elif r.get('replay_cmd'):
+        ctx.cxx(os.path.join(VERIF, 'harness', 'C40_search.cpp'), ctx.bdir('C40_search'))
+        rc, out, err = sh(r['replay_cmd'], timeout=1200)
+        for l in out.split('\n'):
+            if l.startswith('FAIL') or l.startswith('DONE'): print('  implementation: ' + l)
